@@ -16,7 +16,7 @@ from sim.util import digest, exc_signature, violation
 
 PROP = "C04"
 RANK = {9: 0, 2: 1, 1: 2, 3: 3, 4: 4}
-NONFLAGS = (0, 5, 7, 8, 10, 255)
+NONFLAGS = (0, 5, 7, 8, 10, 100)
 
 
 def generate(rng, tier="quick"):
@@ -24,7 +24,7 @@ def generate(rng, tier="quick"):
     k = rng.randint(1, 6)
     vectors = []
     for _ in range(k):
-        dtype = rng.weighted([("uint8", 6), ("int64", 2), ("float64", 2)])
+        dtype = rng.weighted([("uint8", 6), ("int64", 2), ("float64", 2), ("int8", 1), ("uint16", 1), ("float32", 1)])
         style = rng.weighted([("flags", 5), ("mostly_good", 2), ("with_nonflags", 3)])
         vals, mask = [], []
         masked = rng.chance(0.5)
@@ -33,7 +33,7 @@ def generate(rng, tier="quick"):
                 v = 1 if rng.chance(0.7) else rng.pick(seams.FLAGSET)
             elif style == "with_nonflags" and rng.chance(0.3):
                 v = rng.pick(NONFLAGS)
-                if dtype == "float64" and rng.chance(0.4):
+                if dtype in ("float64", "float32") and rng.chance(0.4):
                     v = None  # NaN
                     if rng.chance(0.3):
                         v = 3.5
